@@ -89,36 +89,43 @@ theorem sum_adel_le (l : List (Nat × α)) (k : Nat) (v : α) (g : α → Nat) (
 
 /-! ## the frame of an operation on one slot variable -/
 
-/-- `s'` differs from `s` at most in the slot variable `j` -/
+/-- `s'` differs from `s` at most in the slot variable `j` (every other component of the state —
+    trackables, handles, connections, impls, counters, trace, error — is the same) -/
 def SlotFrame (j : Nat) (s s' : St) : Prop :=
-  s'.T = s.T ∧ s'.G = s.G ∧ s'.C = s.C ∧ s'.K = s.K ∧ s'.impls = s.impls ∧ s'.next = s.next ∧
-  s'.depth = s.depth ∧ s'.steps = s.steps ∧ s'.trace = s.trace ∧ s'.err = s.err ∧
-  ∀ k, k ≠ j → aget s'.S k = aget s.S k
+  ∃ S', s' = { s with S := S' } ∧ ∀ k, k ≠ j → aget S' k = aget s.S k
 
-theorem SlotFrame.refl (j : Nat) (s : St) : SlotFrame j s s :=
-  ⟨rfl, rfl, rfl, rfl, rfl, rfl, rfl, rfl, rfl, rfl, fun _ _ => rfl⟩
+theorem SlotFrame.refl (j : Nat) (s : St) : SlotFrame j s s := ⟨s.S, rfl, fun _ _ => rfl⟩
 
 theorem slotFrame_aset (j : Nat) (s : St) (x : SlotVar) : SlotFrame j s { s with S := aset s.S j x } :=
-  ⟨rfl, rfl, rfl, rfl, rfl, rfl, rfl, rfl, rfl, rfl, fun _ hk => aget_aset_other _ _ _ _ hk⟩
+  ⟨_, rfl, fun _ hk => aget_aset_other _ _ _ _ hk⟩
 
 theorem slotFrame_adel (j : Nat) (s : St) : SlotFrame j s { s with S := adel s.S j } :=
-  ⟨rfl, rfl, rfl, rfl, rfl, rfl, rfl, rfl, rfl, rfl, fun _ hk => aget_adel_other _ _ _ hk⟩
+  ⟨_, rfl, fun _ hk => aget_adel_other _ _ _ hk⟩
 
 /-- `s'` differs from `s` at most in the slot variables `j` and `i` -/
 def SlotFrame2 (j i : Nat) (s s' : St) : Prop :=
-  s'.T = s.T ∧ s'.G = s.G ∧ s'.C = s.C ∧ s'.K = s.K ∧ s'.impls = s.impls ∧ s'.next = s.next ∧
-  s'.depth = s.depth ∧ s'.steps = s.steps ∧ s'.trace = s.trace ∧ s'.err = s.err ∧
-  ∀ k, k ≠ j → k ≠ i → aget s'.S k = aget s.S k
+  ∃ S', s' = { s with S := S' } ∧ ∀ k, k ≠ j → k ≠ i → aget S' k = aget s.S k
 
 theorem SlotFrame.to2 {j : Nat} (i : Nat) {s s' : St} (h : SlotFrame j s s') : SlotFrame2 j i s s' := by
-  obtain ⟨h1, h2, h3, h4, h5, h6, h7, h8, h9, h10, h11⟩ := h
-  exact ⟨h1, h2, h3, h4, h5, h6, h7, h8, h9, h10, fun k hk _ => h11 k hk⟩
+  obtain ⟨S', h1, h2⟩ := h
+  exact ⟨S', h1, fun k hk _ => h2 k hk⟩
 
 theorem slotFrame2_aset2 (j i : Nat) (s : St) (x y : SlotVar) :
     SlotFrame2 j i s { s with S := aset (aset s.S i y) j x } :=
-  ⟨rfl, rfl, rfl, rfl, rfl, rfl, rfl, rfl, rfl, rfl, fun k hk hk' => by
-    show aget (aset (aset s.S i y) j x) k = aget s.S k
-    rw [aget_aset_other _ _ _ _ hk, aget_aset_other _ _ _ _ hk']⟩
+  ⟨_, rfl, fun k hk hk' => by rw [aget_aset_other _ _ _ _ hk, aget_aset_other _ _ _ _ hk']⟩
+
+/-- what a `SlotFrame2` (hence a `SlotFrame`) leaves unchanged, component by component -/
+theorem SlotFrame2.components {j i : Nat} {s s' : St} (h : SlotFrame2 j i s s') :
+    s'.T = s.T ∧ s'.G = s.G ∧ s'.C = s.C ∧ s'.K = s.K ∧ s'.impls = s.impls ∧ s'.next = s.next ∧
+    s'.err = s.err ∧ s'.trace = s.trace ∧ ∀ k, k ≠ j → k ≠ i → aget s'.S k = aget s.S k := by
+  obtain ⟨S', rfl, h2⟩ := h
+  exact ⟨rfl, rfl, rfl, rfl, rfl, rfl, rfl, rfl, h2⟩
+
+theorem SlotFrame.components {j : Nat} {s s' : St} (h : SlotFrame j s s') :
+    s'.T = s.T ∧ s'.G = s.G ∧ s'.C = s.C ∧ s'.K = s.K ∧ s'.impls = s.impls ∧ s'.next = s.next ∧
+    s'.err = s.err ∧ s'.trace = s.trace ∧ ∀ k, k ≠ j → aget s'.S k = aget s.S k := by
+  obtain ⟨S', rfl, h2⟩ := h
+  exact ⟨rfl, rfl, rfl, rfl, rfl, rfl, rfl, rfl, h2⟩
 
 /-! ## live functor copies -/
 
@@ -276,65 +283,91 @@ theorem masgS_busy (s : St) (j i : Nat) (d v : SlotVar)
   simp only [stepSimple, hd, hv, h1, h2']
   rfl
 
-/-! `mkFun` changes at most the `everFwd` flag of one handle -/
+/-! `mkFun` never touches a slot variable, a connection or a cell -/
 
-/-- `s'` differs from `s` at most in `G` -/
-def GFrame (s s' : St) : Prop :=
-  s'.T = s.T ∧ s'.S = s.S ∧ s'.C = s.C ∧ s'.K = s.K ∧ s'.impls = s.impls ∧ s'.next = s.next ∧
-  s'.depth = s.depth ∧ s'.steps = s.steps ∧ s'.trace = s.trace ∧ s'.err = s.err
+/-- what building a functor leaves unchanged whatever the spec -/
+def MkFrame (s s' : St) : Prop :=
+  s'.S = s.S ∧ s'.C = s.C ∧ s'.impls = s.impls ∧ s'.depth = s.depth ∧ s'.steps = s.steps ∧
+  s'.trace = s.trace ∧ s'.err = s.err
 
-theorem GFrame.refl (s : St) : GFrame s s := ⟨rfl, rfl, rfl, rfl, rfl, rfl, rfl, rfl, rfl, rfl⟩
+theorem MkFrame.refl (s : St) : MkFrame s s := ⟨rfl, rfl, rfl, rfl, rfl, rfl, rfl⟩
+
+/-- functor specs whose construction has no side effect on the state: everything but `make_slot()` of a
+    signal (marks the signal object) and the owning functors (take over a trackable / scoped connection) -/
+def plainSpec : FSpec → Bool
+  | .fwd _ | .ownT _ _ | .ownK _ _ => false
+  | _ => true
+
+def ownSpec : FSpec → Bool
+  | .ownT _ _ | .ownK _ _ => true
+  | _ => false
 
 theorem mkFun_ok (s s0 : St) (b : Bool) (spec : FSpec) (fn : Fun) (h : mkFun s b spec = .ok (fn, s0)) :
-    GFrame s s0 ∧
-    (s0 = s ∨ ∃ g hd, spec = .fwd g ∧ aget s.G g = some hd ∧
-                      s0 = { s with G := aset s.G g { hd with everFwd := true } }) := by
+    MkFrame s s0 ∧ (plainSpec spec = true → s0 = s) ∧
+    (ownSpec spec = false → s0.T = s.T ∧ s0.K = s.K ∧ s0.next = s.next) ∧
+    ((∀ g, spec ≠ .fwd g) → s0.G = s.G) := by
   cases spec with
-  | fn fid => simp [mkFun] at h; obtain ⟨_, rfl⟩ := h; exact ⟨GFrame.refl _, .inl rfl⟩
+  | fn fid =>
+    simp [mkFun] at h; obtain ⟨_, rfl⟩ := h
+    exact ⟨MkFrame.refl _, fun _ => rfl, fun _ => ⟨rfl, rfl, rfl⟩, fun _ => rfl⟩
   | mem fid t =>
     simp only [mkFun] at h
     split at h
     · cases h
-    · simp at h; obtain ⟨_, rfl⟩ := h; exact ⟨GFrame.refl _, .inl rfl⟩
+    · simp at h; obtain ⟨_, rfl⟩ := h
+      exact ⟨MkFrame.refl _, fun _ => rfl, fun _ => ⟨rfl, rfl, rfl⟩, fun _ => rfl⟩
   | bref fid t =>
     simp only [mkFun] at h
     split at h
     · cases h
-    · simp at h; obtain ⟨_, rfl⟩ := h; exact ⟨GFrame.refl _, .inl rfl⟩
+    · simp at h; obtain ⟨_, rfl⟩ := h
+      exact ⟨MkFrame.refl _, fun _ => rfl, fun _ => ⟨rfl, rfl, rfl⟩, fun _ => rfl⟩
   | trk fid t1 t2 =>
     simp only [mkFun] at h
     split at h
     · cases h
     · split at h
-      · simp at h; obtain ⟨_, rfl⟩ := h; exact ⟨GFrame.refl _, .inl rfl⟩
+      · simp at h; obtain ⟨_, rfl⟩ := h
+        exact ⟨MkFrame.refl _, fun _ => rfl, fun _ => ⟨rfl, rfl, rfl⟩, fun _ => rfl⟩
       · split at h
         · cases h
-        · simp at h; obtain ⟨_, rfl⟩ := h; exact ⟨GFrame.refl _, .inl rfl⟩
+        · simp at h; obtain ⟨_, rfl⟩ := h
+          exact ⟨MkFrame.refl _, fun _ => rfl, fun _ => ⟨rfl, rfl, rfl⟩, fun _ => rfl⟩
   | nest sv =>
     simp only [mkFun] at h
     split at h
     · cases h
     · split at h
       · cases h
-      · simp at h; obtain ⟨_, rfl⟩ := h; exact ⟨GFrame.refl _, .inl rfl⟩
+      · simp at h; obtain ⟨_, rfl⟩ := h
+        exact ⟨MkFrame.refl _, fun _ => rfl, fun _ => ⟨rfl, rfl, rfl⟩, fun _ => rfl⟩
   | fwd g =>
     simp only [mkFun] at h
     split at h
     · cases h
-    · rename_i hd hg
-      split at h
+    · split at h
       · cases h
       · simp at h
         obtain ⟨_, rfl⟩ := h
-        exact ⟨⟨rfl, rfl, rfl, rfl, rfl, rfl, rfl, rfl, rfl, rfl⟩, .inr ⟨g, hd, rfl, hg, rfl⟩⟩
+        exact ⟨⟨rfl, rfl, rfl, rfl, rfl, rfl, rfl⟩, fun hp => by simp [plainSpec] at hp,
+               fun _ => ⟨rfl, rfl, rfl⟩, fun hn => absurd rfl (hn g)⟩
+  | ownT fid t =>
+    simp only [mkFun] at h
+    split at h
+    · cases h
+    · simp at h
+      obtain ⟨_, rfl⟩ := h
+      exact ⟨⟨rfl, rfl, rfl, rfl, rfl, rfl, rfl⟩, fun hp => by simp [plainSpec] at hp,
+             fun hp => by simp [ownSpec] at hp, fun _ => rfl⟩
+  | ownK fid k =>
+    simp only [mkFun] at h
+    split at h
+    · cases h
+    · simp [St.fresh] at h
+      obtain ⟨_, rfl⟩ := h
+      exact ⟨⟨rfl, rfl, rfl, rfl, rfl, rfl, rfl⟩, fun hp => by simp [plainSpec] at hp,
+             fun hp => by simp [ownSpec] at hp, fun _ => rfl⟩
   | bad => simp [mkFun] at h
-
-/-- a functor spec that is not `make_slot()` of a signal changes nothing when built -/
-theorem mkFun_ok_notfwd (s s0 : St) (b : Bool) (spec : FSpec) (fn : Fun) (h : mkFun s b spec = .ok (fn, s0))
-    (hn : ∀ g, spec ≠ .fwd g) : s0 = s := by
-  rcases (mkFun_ok s s0 b spec fn h).2 with h1 | ⟨g, _, h2, _⟩
-  · exact h1
-  · exact absurd h2 (hn g)
 
 theorem mkS0_eq (s : St) (i : Nat) (ty : String) (hn : aget s.S i = none) (hty : ty = "I" ∨ ty = "V") :
     stepSimple s (.mkS0 i ty) = some ({ s with S := aset s.S i { isVoid := ty = "V", slot := {} } }, "ok") := by
